@@ -115,10 +115,12 @@ theorem C03_value_exact (c : Crypto) (rel : Relayer.State) (s : State) (headers 
     block's tree under a position of the tree's depth presents the leaf that really is at that
     position — so the first transaction can only be presented at position 0, where the maturity
     rule applies.  Stated without any unsatisfiable idealisation: presenting another transaction at a
-    position *exhibits a collision* of the hash on two 64-byte inputs. -/
+    position *exhibits a collision* of the hash: one of the strings the verifier hashed against one of the
+    strings the block's producer hashed (`C04.RunCollision`). -/
 theorem C03_coinbase_only_at_zero {H} (hH : C04.Out32 H) (t : C04.Tree) (hp : t.Perfect)
     (txid proof : Bytes) (i : Nat) (hdepth : proof.length / 32 = t.depth)
-    (hacc : Merkle.verify H txid (t.root H) proof i = true) (hne : txid ≠ t.leafAt i) : C04.Collision64 H :=
+    (hacc : Merkle.verify H txid (t.root H) proof i = true) (hne : txid ≠ t.leafAt i) :
+    C04.RunCollision H txid (Merkle.chunks proof) i t :=
   (C04.C04_accepted_is_leaf hH t hp txid proof i hdepth hacc).resolve_left hne
 
 /-! ### at most once -/
